@@ -39,7 +39,7 @@ META = dict(
         "data-region faults are sampled, not enumerated",
     ],
     technique="fault enumeration: every truncation offset and every structural byte of generated files, sampled data-region corruption; oracle = reject or well-formed",
-    engines=["byte-fault-enumerator", "hypothesis-runner", "asan-subprocess-driver"],
+    engines=["byte-fault-enumerator", "hypothesis-runner", "asan-subprocess-driver", "libfuzzer-load-target"],
 )
 
 MAGIC = b"\211KAS\r\n\032\n"
@@ -471,7 +471,7 @@ HOT = ("_offset", "/parent", "/child", "/node", "/site", "/individual", "/popula
 
 
 TEXT_PAYLOAD = ("metadata_schema", "time_units", "reference_sequence/", "provenances/timestamp", "provenances/record",
-                "sites/ancestral_state", "mutations/derived_state", "uuid")
+                "sites/ancestral_state", "mutations/derived_state")
 
 
 def is_text_payload(key):
@@ -612,6 +612,82 @@ def enum_probe(tier, seed):
     return iter([])
 
 
+# ------------------------------------------------------------------ coverage-guided fuzzing of the C loader
+_FUZZ_SPECS = [
+    _PROBE_SPEC,
+    dict(L=2.0, nodes=[[1, 0.0, 0, 0, "ab"], [1, 0.0, -1, -1, ""], [0, 1.0, 0, -1, "x"], [0, 2.0, -1, 0, ""]],
+         edges=[[0.0, 1.0, 2, 0, "e"], [0.0, 2.0, 2, 1, ""], [1.0, 2.0, 3, 0, ""], [1.0, 2.0, 3, 2, ""]],
+         sites=[[0.5, "A", "s"], [1.5, "", ""]], mutations=[[0, 2, "T", -1, 1.5, "m"], [0, 0, "G", 0, 0.5, ""], [1, 1, "AC", -1, None, ""]],
+         individuals=[[0, [1.0, 2.0], [-1], "i"]], populations=[["p"]],
+         migrations=[[0.0, 1.0, 0, 0, 0, 0.5, "g"]], metadata="{}", time_units="generations"),
+    dict(L=1.0, nodes=[], edges=[], sites=[], mutations=[], individuals=[], populations=[], migrations=[]),
+]
+
+
+def enum_fuzz(tier, seed):
+    runs = 20000 if tier == "quick" else 3000000
+    for k in range(8 if tier == "quick" else 16):
+        # half of the campaigns start from small valid files, half from an empty corpus
+        yield dict(fuzz_seed=seed * 1000 + k + 1, runs=runs, corpus="seeded" if k % 2 == 0 else "empty")
+
+
+def run_fuzz(case, ctx):
+    import shutil
+    import subprocess
+    import tskit
+
+    from .. import build
+
+    exe = build.ensure_fuzz_target(os.environ.get("VF_REPO", "/repo"))
+    scratch = os.path.join(os.environ.get("VF_SCRATCH", "."), "fuzz")
+    shutil.rmtree(scratch, ignore_errors=True)
+    os.makedirs(os.path.join(scratch, "corpus"))
+    env = dict(os.environ)
+    env.pop("LD_PRELOAD", None)
+    # allocations sized by a corrupted header field fail fast (NULL -> TSK_ERR_NO_MEMORY) instead of
+    # spending the campaign zeroing gigabytes
+    env["ASAN_OPTIONS"] = "detect_leaks=0:abort_on_error=0:allocator_may_return_null=1:max_allocation_size_mb=256"
+    ctx.nt(True)
+    ctx.label("corpus:" + case.get("corpus", "replay"))
+    if "crash_hex" in case:
+        # replay of a saved crashing input
+        path = os.path.join(scratch, "input.bin")
+        write(path, bytes.fromhex(case["crash_hex"]))
+        r = subprocess.run([exe, path], capture_output=True, text=True, env=env, timeout=600)
+        ctx.check(r.returncode == 0, "libfuzzer", "saved input still fails:\n" + _fuzz_excerpt(r.stderr))
+        return
+    if case["corpus"] == "seeded":
+        for i, spec in enumerate(_FUZZ_SPECS):
+            t, buf = make_file(tskit, spec, dict(index=True, refseq=i % 2, schemas=i == 1, provenance=i == 1))
+            for opt in (0, 1, 2):
+                write(os.path.join(scratch, "corpus", f"seed{i}_{opt}"), bytes([opt]) + buf)
+    r = subprocess.run(
+        [exe, f"-seed={case['fuzz_seed']}", f"-runs={case['runs']}", "-max_len=12000", "-timeout=25", "-rss_limit_mb=6000", "-malloc_limit_mb=1000000",
+         "-print_final_stats=1", f"-artifact_prefix={scratch}/", os.path.join(scratch, "corpus")],
+        capture_output=True, text=True, env=env, timeout=6 * 3600)
+    for line in r.stderr.splitlines():
+        if line.startswith("stat::number_of_executed_units:"):
+            ctx.notes["fuzz_executions"] = int(line.split()[-1])
+        if line.startswith("stat::new_units_added:"):
+            ctx.notes["fuzz_new_units"] = int(line.split()[-1])
+    if r.returncode != 0:
+        crashes = sorted(f for f in os.listdir(scratch) if f.startswith(("crash-", "timeout-", "oom-", "leak-")))
+        if crashes:
+            with open(os.path.join(scratch, crashes[0]), "rb") as f:
+                data = f.read()
+            case["crash_hex"] = data.hex()  # the replay file then carries the reproducible unit
+        ctx.fail("libfuzzer", f"{crashes[:1]} after libFuzzer campaign seed={case['fuzz_seed']}:\n" + _fuzz_excerpt(r.stderr))
+    shutil.rmtree(scratch, ignore_errors=True)
+
+
+def _fuzz_excerpt(text):
+    for marker in ("C10-ORACLE-VIOLATION", "ERROR: AddressSanitizer", "runtime error:", "Bug detected in", "ERROR: libFuzzer"):
+        i = text.find(marker)
+        if i >= 0:
+            return text[max(0, i - 80): i + 1500]
+    return text[-1200:]
+
+
 SUBCHECKS = [
     SubCheck("C10.truncation", run_truncation, strategy=file_case, quick=32, thorough=2000,
              rule="every truncation offset of the file (and of the k-th object of a k-object stream)"),
@@ -625,5 +701,8 @@ SUBCHECKS = [
              rule="data-region substitutions on the ASan+UBSan build (silent over-reads become visible)"),
     SubCheck("C10.struct_asan", run_structural, strategy=file_case, quick=4, thorough=300, flavour="asan",
              rule="structural enumeration on the ASan+UBSan build"),
+    SubCheck("C10.libfuzzer", run_fuzz, enumerate=enum_fuzz, quick=1, thorough=1, shards=8, hang_s=4 * 3600,
+             rule="libFuzzer (clang, ASan+UBSan) campaigns over tsk_table_collection_loadf with the round-trip / tree-sweep "
+                  "oracle inside the target; 8 x 20000 executions quick, 16 x 3000000 thorough; seeded and empty corpora"),
     SubCheck("C10.probe", run_probe, enumerate=enum_probe, quick=0, thorough=0, rule="probe only"),
 ]
